@@ -29,7 +29,7 @@ import (
 	"github.com/nuetzliches/hookaido/internal/verifkit/verifcrashlibc"
 )
 
-var scripts = map[string]func() []step{"app": scriptApp, "wal": scriptWAL, "lease": scriptLease}
+var scripts = map[string]func() []step{"app": scriptApp, "wal": scriptWAL, "lease": scriptLease, "limits": scriptLimits}
 
 // ---- child: runs the scripted history and dies at the configured crash point -------------------------------
 
@@ -41,7 +41,7 @@ func runChild(scn string) {
 	if armEarly {
 		verifcrash.Arm()
 	}
-	a, err := app.VerifBoot(app.VerifBootOptions{Dir: dir, ConfigText: configText(18080)})
+	a, err := app.VerifBoot(app.VerifBootOptions{Dir: dir, ConfigText: configTextFor(scn, 18080)})
 	if err != nil {
 		fmt.Fprintln(os.Stderr, "child boot:", err)
 		os.Exit(4)
@@ -67,14 +67,22 @@ type childState struct {
 	leases []leaseRef
 	used   map[int]bool
 	onAck  func(i, code int) // optional observer (concurrent scenarios log outcomes)
+	// advance moves the virtual clock (concurrent scenarios run in a bubble; the step is a scheduling choice)
+	advance func(d time.Duration)
 }
 
 // do performs step i of the history through the real handlers and writes START/ACK/BODY/SKIP lines to the side log.
+// progress: which steps have started / been acknowledged so far (explore mode of the concurrent scenarios: part of the
+// equivalence key of a crash point - the admissible outcomes depend on it).
+var progress []string
+
 func (cs *childState) do(i int, st step) {
 	a := cs.a
 	verifcrash.Log(fmt.Sprintf("START %d", i))
+	progress = append(progress, fmt.Sprintf("S%d", i))
 	w := &ackWriter{ResponseRecorder: httptest.NewRecorder(), onAck: func(code int) {
 		verifcrash.Log(fmt.Sprintf("ACK %d %d", i, code))
+		progress = append(progress, fmt.Sprintf("A%d=%d", i, code))
 		if cs.onAck != nil {
 			cs.onAck(i, code)
 		}
@@ -150,6 +158,12 @@ func (cs *childState) do(i int, st step) {
 	case "checkpoint":
 		if s, ok := a.Store.(*queue.SQLiteStore); ok {
 			queue.VerifCheckpoint(s)
+		}
+		verifcrash.Log(fmt.Sprintf("ACK %d 0", i))
+	case "clock":
+		if cs.advance != nil {
+			d, _ := time.ParseDuration(st.Delay)
+			cs.advance(d)
 		}
 		verifcrash.Log(fmt.Sprintf("ACK %d 0", i))
 	}
@@ -261,13 +275,39 @@ func admissible(steps []step, evs []event) ([]world, string) {
 		return keys, ""
 	}
 	stopped := map[int]bool{} // per client: its history ends at its first operation that never started or is in flight
+	// application order: everything that only adds messages first (whoever sent them), then the operations that refer
+	// to messages by what a dequeue returned; within each group the clients' own orders are kept. For a sequential
+	// history the result is the same as applying the steps in order, because a dequeue names what it returned.
+	var order []int
+	for pass := 0; pass < 2; pass++ {
+		for i, st := range steps {
+			producer := st.Kind == "ingress" || st.Kind == "publish" || st.Kind == "clock" || st.Kind == "checkpoint"
+			if producer == (pass == 0) {
+				order = append(order, i)
+			}
+		}
+	}
+	// a client's later steps never started once one of its steps did not start or is in flight; that must be known
+	// before the reordered application looks at them
 	for i, st := range steps {
 		ev := evs[i]
 		if stopped[st.Thread] {
+			evs[i].started = false
 			continue
 		}
 		if !ev.started {
 			stopped[st.Thread] = true
+			continue
+		}
+		if !ev.skipped && (!ev.acked || (st.Kind == "dequeue" && ev.body == "")) {
+			stopped[st.Thread] = true
+		}
+	}
+	stopped = map[int]bool{}
+	for _, i := range order {
+		st := steps[i]
+		ev := evs[i]
+		if !ev.started {
 			continue
 		}
 		if ev.skipped {
@@ -278,7 +318,7 @@ func admissible(steps []step, evs []event) ([]world, string) {
 		dequeueWhy := ""
 		for _, w := range worlds {
 			switch st.Kind {
-			case "checkpoint":
+			case "checkpoint", "clock":
 				next = append(next, w)
 			case "ingress":
 				full := w.clone()
@@ -433,9 +473,6 @@ func admissible(steps []step, evs []event) ([]world, string) {
 			}
 		}
 		worlds = next
-		if inflight {
-			stopped[st.Thread] = true
-		}
 	}
 	return worlds, ""
 }
@@ -525,11 +562,15 @@ func matches(rows []row, w world) string {
 
 // judge recovers the database the dead child left behind through the production boot path and checks it.
 func judge(dir string, steps []step, evs []event, portBase int) string {
+	return judgeScn("", dir, steps, evs, portBase)
+}
+
+func judgeScn(scn, dir string, steps []step, evs []event, portBase int) string {
 	worlds, why := admissible(steps, evs)
 	if why != "" {
 		return why
 	}
-	a, err := app.VerifBoot(app.VerifBootOptions{Dir: dir, ConfigText: configText(portBase)})
+	a, err := app.VerifBoot(app.VerifBootOptions{Dir: dir, ConfigText: configTextFor(scn, portBase)})
 	if err != nil {
 		return "queue refuses to open after the crash: " + err.Error()
 	}
@@ -670,10 +711,11 @@ type concSchedule struct {
 	Schedule []int
 	K        int
 	Outcome  string
-	// Points: the crash points of this schedule whose execution prefix (sequence of scheduled operations up to the
-	// crash point) was not already reached by an earlier schedule - the same prefix is the same state, so crashing
-	// there again would repeat a run.
+	// Points: the crash points of this schedule that are not equivalent to one already listed: two crash points are
+	// equivalent when the file mutations performed so far (syscall, descriptor, offset, bytes) and the sets of steps
+	// started and acknowledged are the same - the crash then leaves the same files and the same admissible outcomes.
 	Points []int
+	Keys   []string // equivalence key of each listed point (the parent de-duplicates between explore shards)
 }
 
 // runConcChild: mode "explore" enumerates the schedules of the concurrent scenario (no crash) and writes them with
@@ -686,7 +728,8 @@ func runConcChild(t *testing.T, name string) {
 	threads := concScripts[name]()
 	mode := os.Getenv("VERIF_CRASH_MODE")
 	execN := 0
-	var hitAt []int // explore mode: number of scheduled operations before each crash point of the current execution
+	var hitAt []int     // explore mode: number of scheduled operations before each crash point of the current execution
+	var hitKey []string // explore mode: equivalence key of each crash point (files written so far + steps started/acknowledged)
 	body := func(x *sched.Exec) {
 		if ns, err := strconv.ParseInt(os.Getenv("VERIF_CRASH_NOW"), 10, 64); err == nil {
 			// the bubble's clock starts in the year 2000; move it to the parent's present so that the restarted
@@ -696,8 +739,17 @@ func runConcChild(t *testing.T, name string) {
 			}
 		}
 		hitAt = hitAt[:0]
+		hitKey = hitKey[:0]
+		progress = progress[:0]
 		if mode == "explore" {
-			verifcrash.OnHit = func(n int) { hitAt = append(hitAt, len(x.Trace)) }
+			verifcrash.TrackSig = true
+			verifcrash.Who = sched.CurrentThread
+			verifcrash.OnHit = func(n int) {
+				hitAt = append(hitAt, len(x.Trace))
+				p := append([]string{}, progress...)
+				sort.Strings(p)
+				hitKey = append(hitKey, fmt.Sprintf("%x|%s", verifcrash.Sig(), strings.Join(p, ",")))
+			}
 		}
 		d := dir
 		if mode == "explore" {
@@ -721,7 +773,8 @@ func runConcChild(t *testing.T, name string) {
 		for ti := range threads {
 			ti := ti
 			x.Go(fmt.Sprintf("client%d", ti), func() {
-				cs := &childState{a: a, used: map[int]bool{}, onAck: func(i, code int) { x.Logf("%d:%s=%d", i, steps[i].Kind, code) }}
+				cs := &childState{a: a, used: map[int]bool{}, onAck: func(i, code int) { x.Logf("%d:%s=%d", i, steps[i].Kind, code) },
+					advance: func(d time.Duration) { x.Advance(d) }}
 				for j, st := range threads[ti] {
 					cs.do(off[ti]+j, st)
 				}
@@ -748,20 +801,21 @@ func runConcChild(t *testing.T, name string) {
 			for _, l := range x.Log {
 				fmt.Sscanf(l, "K=%d", &k)
 			}
+			// per shard: only crash points whose key this shard has not seen (the parent removes the duplicates
+			// between shards)
 			var pts []int
-			ops := make([]string, len(x.Trace))
-			for i, p := range x.Trace {
-				ops[i] = p.Op
-			}
-			for n, l := range hitAt {
-				key := fmt.Sprintf("%d|%s", n+1, strings.Join(ops[:l], " "))
+			var keys []string
+			for n := range hitAt {
+				key := hitKey[n]
 				if !seenPrefix[key] {
 					seenPrefix[key] = true
 					pts = append(pts, n+1)
+					keys = append(keys, key)
 				}
 			}
-			out = append(out, concSchedule{Schedule: sch, K: k, Outcome: strings.Join(x.Log, " "), Points: pts})
+			out = append(out, concSchedule{Schedule: sch, K: k, Outcome: strings.Join(x.Log, " "), Points: pts, Keys: keys})
 		}}
+		opt.Shard, opt.Shards = sched.ShardFromEnv()
 		if dl := os.Getenv("VERIF_CRASH_EXPLORE_DEADLINE"); dl != "" {
 			if ns, err := strconv.ParseInt(dl, 10, 64); err == nil {
 				opt.Deadline = time.Unix(0, ns)
@@ -777,7 +831,7 @@ func runConcChild(t *testing.T, name string) {
 			os.Exit(4)
 		}
 		b, _ := json.Marshal(map[string]any{"schedules": out, "exhaustive": res.Exhaustive, "executions": res.Executions, "cut": res.SleepCut})
-		os.WriteFile(filepath.Join(dir, "schedules.json"), b, 0o644)
+		os.WriteFile(os.Getenv("VERIF_CRASH_SCHEDULES_OUT"), b, 0o644)
 		os.Exit(0)
 	}
 	var schedule []int
@@ -797,24 +851,78 @@ func EnumerateConc(r *runner.Run, name string, bound int, budget time.Duration) 
 	scratch := runner.Scratch()
 	steps, _ := concSteps(name)
 	deadline := time.Now().Add(budget)
-	d0 := filepath.Join(scratch, "conc-"+name+"-explore")
 	nowEnv := fmt.Sprintf("VERIF_CRASH_NOW=%d", time.Now().UnixNano())
-	_, out, err := spawnT("conc:"+name, d0, 0, budget/3+2*time.Minute, "VERIF_CRASH_MODE=explore", nowEnv, fmt.Sprintf("VERIF_CRASH_BOUND=%d", bound),
-		fmt.Sprintf("VERIF_CRASH_EXPLORE_DEADLINE=%d", time.Now().Add(budget/3).UnixNano()), "GOMAXPROCS=1")
-	if err != nil {
-		r.Infra("%s: schedule enumeration failed: %v %s", name, err, out)
-		return
-	}
 	var doc struct {
 		Schedules  []concSchedule
 		Exhaustive bool
 		Executions int
 		Cut        int
 	}
-	b, err := os.ReadFile(filepath.Join(d0, "schedules.json"))
-	if err != nil || json.Unmarshal(b, &doc) != nil || len(doc.Schedules) == 0 {
-		r.Infra("%s: no schedules enumerated: %v %s", name, err, out)
-		return
+	doc.Exhaustive = true
+	{
+		// schedule enumeration, split over processes (subtrees of the schedule tree are dealt round-robin)
+		const xshards = 8
+		type part struct {
+			Schedules  []concSchedule
+			Exhaustive bool
+			Executions int
+			Cut        int
+		}
+		parts := make([]part, xshards)
+		errs := make([]string, xshards)
+		var xwg sync.WaitGroup
+		dl := time.Now().Add(budget / 2).UnixNano()
+		for i := 0; i < xshards; i++ {
+			xwg.Add(1)
+			go func(i int) {
+				defer xwg.Done()
+				d := filepath.Join(scratch, fmt.Sprintf("conc-%s-explore-%d", name, i))
+				of := filepath.Join(scratch, fmt.Sprintf("conc-%s-schedules-%d.json", name, i))
+				os.Remove(of)
+				_, out, err := spawnT("conc:"+name, d, 0, budget/2+2*time.Minute, "VERIF_CRASH_MODE=explore", nowEnv, fmt.Sprintf("VERIF_CRASH_BOUND=%d", bound),
+					fmt.Sprintf("VERIF_CRASH_EXPLORE_DEADLINE=%d", dl), "GOMAXPROCS=1", fmt.Sprintf("VERIF_SHARD=%d/%d", i, xshards), "VERIF_CRASH_SCHEDULES_OUT="+of)
+				if err != nil {
+					errs[i] = fmt.Sprintf("%v %s", err, out)
+					return
+				}
+				b, err := os.ReadFile(of)
+				if err != nil || json.Unmarshal(b, &parts[i]) != nil {
+					errs[i] = fmt.Sprintf("no schedules file: %v %s", err, out)
+				}
+				os.Remove(of)
+			}(i)
+		}
+		xwg.Wait()
+		seen := map[string]bool{}
+		for i, p := range parts {
+			if errs[i] != "" {
+				r.Infra("%s: schedule enumeration (shard %d) failed: %s", name, i, errs[i])
+				return
+			}
+			doc.Exhaustive = doc.Exhaustive && p.Exhaustive
+			doc.Executions += p.Executions
+			doc.Cut += p.Cut
+			for _, sc := range p.Schedules {
+				sk := fmt.Sprint("S", sc.Schedule)
+				if seen[sk] {
+					continue // an inner node of the schedule tree, run by every shard
+				}
+				seen[sk] = true
+				var pts []int
+				for j, n := range sc.Points {
+					if !seen[sc.Keys[j]] {
+						seen[sc.Keys[j]] = true
+						pts = append(pts, n)
+					}
+				}
+				sc.Points, sc.Keys = pts, nil
+				doc.Schedules = append(doc.Schedules, sc)
+			}
+		}
+		if len(doc.Schedules) == 0 {
+			r.Infra("%s: no schedules enumerated", name)
+			return
+		}
 	}
 	outcomes := map[string]bool{}
 	total, allPairs := 0, 0
@@ -899,7 +1007,7 @@ func EnumerateConc(r *runner.Run, name string, bound int, budget time.Duration) 
 		red = "unbounded, sleep-set reduced"
 	}
 	r.Set("concurrent:"+name, map[string]any{"clients": len(concScripts[name]()), "schedules": len(doc.Schedules), "schedule_space": red,
-		"executions_cut_as_redundant": doc.Cut, "distinct_schedule_outcomes": len(outcomes), "schedule_crash_pairs": allPairs, "pairs_with_distinct_execution_prefix": total, "pairs_run": done, "in_flight_classes": classes})
+		"executions_cut_as_redundant": doc.Cut, "distinct_schedule_outcomes": len(outcomes), "schedule_crash_pairs": allPairs, "pairs_not_equivalent_to_an_earlier_one": total, "pairs_run": done, "in_flight_classes": classes})
 }
 
 // Deadline, when set, ends the enumeration between scenarios (reported as not exhaustive, never as a failure).
@@ -929,7 +1037,7 @@ func Enumerate(r *runner.Run, scens []Scenario) {
 		if K == 0 && strings.HasPrefix(sc.Script, "gen:") {
 			// e.g. dequeue on an empty queue: the history writes nothing, so there is no instant that differs from "before"
 			r.Add("generated_histories_without_file_mutation", 1)
-			if why := judge(d0, steps, evs, 21000); why != "" {
+			if why := judgeScn(sc.Script, d0, steps, evs, 21000); why != "" {
 				r.Violation("crash:gen:no-crash", fmt.Sprintf("[%s] after the complete history: %s", sc.Script, why), map[string]any{"scenario": sc.Script, "crash_at": 0}, nil)
 			}
 			continue
@@ -938,7 +1046,7 @@ func Enumerate(r *runner.Run, scens []Scenario) {
 			r.Infra("%s: counting run reported no crash points: %s", sc.Name, out)
 			continue
 		}
-		if why := judge(d0, steps, evs, 21000); why != "" {
+		if why := judgeScn(sc.Script, d0, steps, evs, 21000); why != "" {
 			r.Violation("crash:"+sc.Name+":no-crash", fmt.Sprintf("[%s] after the complete history (process abandoned without shutdown): %s", sc.Name, why), map[string]any{"scenario": sc.Name, "crash_at": 0}, nil)
 		}
 		kinds := map[string]int{}
@@ -973,7 +1081,7 @@ func Enumerate(r *runner.Run, scens []Scenario) {
 						continue
 					}
 					evs, _, _ := parseLog(filepath.Join(dir, "side.log"), len(steps))
-					why := judge(dir, steps, evs, 21003+3*w)
+					why := judgeScn(sc.Script, dir, steps, evs, 21003+3*w)
 					last, acked := -1, 0
 					for i, e := range evs {
 						if e.started {
@@ -1006,7 +1114,7 @@ func Enumerate(r *runner.Run, scens []Scenario) {
 									return false
 								}
 								ev2, _, _ := parseLog(filepath.Join(d2, "side.log"), len(steps))
-								return judge(d2, steps, ev2, 21003+3*w) != ""
+								return judgeScn(sc.Script, d2, steps, ev2, 21003+3*w) != ""
 							})
 					}
 				}
